@@ -65,8 +65,11 @@ def run_file(ctx, lines, sub, name="c04"):
     os.makedirs(wd)
     with open(os.path.join(wd, "in.txt"), "w") as f:
         f.write("\n".join(lines) + "\n")
-    exe, _ = vlib.cargo_bin(name)
-    drv, _ = vlib.ocaml_driver(name)
+    # build (or look up) the two executables once per check run: both helpers take global locks
+    cache = ctx.__dict__.setdefault("_tools", {})
+    if name not in cache:
+        cache[name] = (vlib.cargo_bin(name)[0], vlib.ocaml_driver(name)[0])
+    exe, drv = cache[name]
     env = dict(os.environ, VERIF_SEED=str(ctx.seed), VERIF_TIER=ctx.tier)
     try:
         pr = subprocess.run([exe, "file", "in.txt"], cwd=wd, env=env, stdout=subprocess.DEVNULL, stderr=subprocess.DEVNULL, timeout=120)
